@@ -238,6 +238,18 @@ func detCase(seed uint64, idx int) (*gen.Case, mach.Config) {
 		}
 		return c, cfg
 	}
+	if idx%7 == 5 {
+		// the variants that route memory instructions by line ownership, on a
+		// large image
+		c = gen.MemoryHigh(seed)
+		r := rng.New(rng.Derive(seed, 0xC08))
+		v := []mach.Variant{mach.MVP71, mach.MVP80, mach.MVP70}[(idx/7)%3]
+		cfg := configFor(v, idx, r)
+		if cfg.Cores < 2 {
+			cfg.Cores = 2 + idx%3
+		}
+		return c, cfg
+	}
 	switch idx % 3 {
 	case 0:
 		c = gen.RegPressure(seed)
